@@ -9,6 +9,7 @@
   the loop run over `s`.
 -/
 import BklProofs.Lemmas.Order
+import BklProofs.Lemmas.C14Codec
 namespace Bkl
 
 /-! The shared non-vacuity witnesses `C09_s` (a 3-entry map in key order) and `C09_s'` (the same
@@ -251,5 +252,154 @@ example : (["p2", "p1"] : List String).Perm ["p1", "p2"] ∧ (["p2", "p1"] : Lis
 theorem C09_eval_function : ∀ (docs : List Val) (env : Vars),
     ∃ r, outputDocuments docs env = r ∧ ∀ r', outputDocuments docs env = r' → r' = r :=
   fun _ _ => ⟨_, rfl, fun _ h => h.symm⟩
+
+/-! ## 9. process2.go:process2Map — evaluated-key collisions
+
+  The last `filterMap` of process2Map evaluates every value and every key (`$"…"`, `$env:…` keys
+  are replaced by their values), so two different keys can evaluate to the same key.  The Go
+  code walks `sortedMap(obj)` and stores into a fresh map; the model walks the key-sorted entry
+  list and stores with `fset`.  `evalEntry` / `evalEntries` (BklProofs/Lemmas/C14Codec.lean)
+  are the per-entry evaluation and its in-order collection; `noRepeatEntries kvs` says that no
+  entry is a `{$repeat: …}` map (those are expanded by an earlier step). -/
+
+/-- The result is an explicit function of the sorted entry list: evaluate the entries in order
+    (first error wins), then build the map from the evaluated entries in that same order. -/
+theorem C09_process2_map_entries (fuel : Nat) (docs : List Val) (root : Val) (ec : Vars)
+    (kvs : Fields) (hs : Fields.sortedKeysB kvs = true) (hr : noRepeatEntries kvs)
+    (h1 : fget kvs "$encode" = none) (h2 : fget kvs "$decode" = none)
+    (h3 : fget kvs "$value" = none) :
+    process2 (fuel + 1) docs root ec (.map kvs) =
+      (evalEntries fuel docs root ec kvs >>= fun es => pure (.map (fofList es))) := by
+  rw [process2_map_noRepeat _ _ _ _ _ hs hr]
+  simp only [cx_process2MapTail, h1, h2, h3]
+  exact process2Entries_eq fuel docs root ec kvs
+
+/-- … and of nothing else: in whatever order the entries of the Go map are listed, `process2`
+    first re-inserts them one by one into a fresh map, i.e. sorts them. -/
+theorem C09_process2_map_order_invariant (fuel : Nat) (docs : List Val) (root : Val) (ec : Vars)
+    {s s' : Fields} (hn : Fields.DistinctKeys s) (hr : noRepeatEntries s) (hp : s'.Perm s) :
+    process2 (fuel + 1) docs root ec (.map s') = process2 (fuel + 1) docs root ec (.map s) :=
+  process2_map_perm fuel docs root ec hn hr hp
+
+example : Fields.DistinctKeys C09_s ∧ noRepeatEntries C09_s ∧ C09_s'.Perm C09_s ∧ C09_s' ≠ C09_s := by
+  refine ⟨C09_s_distinct, ?_, C09_s'_perm, C09_s'_ne⟩
+  intro p hp m hm
+  simp only [C09_s, List.mem_cons, List.mem_nil_iff, or_false] at hp
+  rcases hp with rfl | rfl | rfl <;> cases hm
+
+/-- General collision rule: among the entries that evaluate to the key `k`, the LAST one in
+    sorted order of the ORIGINAL keys supplies the value — if `(k2, v2)` evaluates to `(k, w2)`
+    and no entry after it evaluates to `k`, the result maps `k` to `w2`, whatever the entries
+    before it do. -/
+theorem C09_process2_map_later_wins (fuel : Nat) (docs : List Val) (root : Val) (ec : Vars)
+    (kvs : Fields) (hs : Fields.sortedKeysB kvs = true) (hr : noRepeatEntries kvs)
+    (h1 : fget kvs "$encode" = none) (h2 : fget kvs "$decode" = none)
+    (h3 : fget kvs "$value" = none)
+    (P C : Fields) (k2 : String) (v2 : Val) (hsplit : kvs = P ++ (k2, v2) :: C)
+    (k : String) (w2 : Val)
+    (he2 : evalEntry fuel docs root ec (k2, v2) = .ok (some (k, w2)))
+    (hC : ∀ p ∈ C, ∀ q, evalEntry fuel docs root ec p = .ok (some q) → q.1 ≠ k)
+    (ret : Val) (hok : process2 (fuel + 1) docs root ec (.map kvs) = .ok ret) :
+    ∃ m, ret = .map m ∧ Fields.SortedKeys m ∧ fget m k = some w2 := by
+  rw [C09_process2_map_entries fuel docs root ec kvs hs hr h1 h2 h3] at hok
+  cases hes : evalEntries fuel docs root ec kvs with
+  | error e => rw [hes] at hok; cases hok
+  | ok es =>
+    rw [hes] at hok
+    simp only [e_ok_bind, e_pure_eq, Except.ok.injEq] at hok
+    subst hok
+    refine ⟨_, rfl, sorted_fofList es, ?_⟩
+    subst hsplit
+    obtain ⟨eP, o, eC, _, hx, hCe, rfl⟩ := evalEntries_split hes
+    rw [he2] at hx
+    cases hx
+    exact fget_fofList_last eP eC k w2 (evalEntries_no_key hCe hC)
+
+/-- A key that no entry evaluates to is absent from the result. -/
+theorem C09_process2_map_absent (fuel : Nat) (docs : List Val) (root : Val) (ec : Vars)
+    (kvs : Fields) (hs : Fields.sortedKeysB kvs = true) (hr : noRepeatEntries kvs)
+    (h1 : fget kvs "$encode" = none) (h2 : fget kvs "$decode" = none)
+    (h3 : fget kvs "$value" = none) (k : String)
+    (hk : ∀ p ∈ kvs, ∀ q, evalEntry fuel docs root ec p = .ok (some q) → q.1 ≠ k)
+    (ret : Val) (hok : process2 (fuel + 1) docs root ec (.map kvs) = .ok ret) :
+    ∃ m, ret = .map m ∧ fget m k = none := by
+  rw [C09_process2_map_entries fuel docs root ec kvs hs hr h1 h2 h3] at hok
+  cases hes : evalEntries fuel docs root ec kvs with
+  | error e => rw [hes] at hok; cases hok
+  | ok es =>
+    rw [hes] at hok
+    simp only [e_ok_bind, e_pure_eq, Except.ok.injEq] at hok
+    subst hok
+    exact ⟨_, rfl, fget_fofList_none es k (evalEntries_no_key hes hk)⟩
+
+/-- **C09_process2_map_collision**: two entries `k1 < k2` whose evaluated keys coincide (`k`),
+    no other entry evaluating to `k`: the value kept under `k` is the one of `k2`, the entry that
+    is later in the sorted order of the original keys — not of any iteration order. -/
+theorem C09_process2_map_collision (fuel : Nat) (docs : List Val) (root : Val) (ec : Vars)
+    (kvs : Fields) (hs : Fields.sortedKeysB kvs = true) (hr : noRepeatEntries kvs)
+    (h1 : fget kvs "$encode" = none) (h2 : fget kvs "$decode" = none)
+    (h3 : fget kvs "$value" = none)
+    (k1 k2 : String) (v1 v2 : Val) (hm1 : (k1, v1) ∈ kvs) (hm2 : (k2, v2) ∈ kvs) (hlt : k1 < k2)
+    (k : String) (w1 w2 : Val)
+    (he1 : evalEntry fuel docs root ec (k1, v1) = .ok (some (k, w1)))
+    (he2 : evalEntry fuel docs root ec (k2, v2) = .ok (some (k, w2)))
+    (hother : ∀ p ∈ kvs, p ≠ (k1, v1) → p ≠ (k2, v2) →
+      ∀ q, evalEntry fuel docs root ec p = .ok (some q) → q.1 ≠ k)
+    (ret : Val) (hok : process2 (fuel + 1) docs root ec (.map kvs) = .ok ret) :
+    ∃ m, ret = .map m ∧ Fields.SortedKeys m ∧ fget m k = some w2 := by
+  have _ := hm1; have _ := he1
+  obtain ⟨P, C, hsplit, _, hC⟩ := sorted_split_at hs hm2
+  refine C09_process2_map_later_wins fuel docs root ec kvs hs hr h1 h2 h3 P C k2 v2 hsplit k w2 he2
+    ?_ ret hok
+  intro p hp
+  have hp2 : k2 < p.1 := hC p hp
+  apply hother p (by rw [hsplit]; exact List.mem_append_right _ (List.mem_cons_of_mem _ hp))
+  · intro e
+    rw [e] at hp2
+    exact String.lt_asymm hlt hp2
+  · intro e
+    rw [e] at hp2
+    exact String.lt_irrefl _ hp2
+
+/-- The document `C09_collide = {$"{p}": 1, $"{q}": 2, p: web, q: web}` (both interpolated keys
+    evaluate to `web`; sorted order of the original keys: `$"{p}" < $"{q}" < p < q`)
+    evaluates to `{p: web, q: web, web: 2}`: the entry of the LATER original key `$"{q}"`
+    wins.  Were the same evaluated entries inserted in another order (as a Go `range` over the
+    map could), the value under `web` would be 1: the result is fixed by the sorted order only. -/
+theorem C09_process2_map_collision_example (fuel : Nat) :
+    Fields.sortedKeysB C09_collide = true ∧
+    process2 (fuel + 3) [] (.map C09_collide) [] (.map C09_collide) =
+      .ok (.map [("p", .str "web"), ("q", .str "web"), ("web", .int 2)]) ∧
+    fofList [("web", .int 2), ("web", .int 1), ("p", .str "web"), ("q", .str "web")] =
+      [("p", .str "web"), ("q", .str "web"), ("web", .int 1)] := by
+  refine ⟨by decide, ?_, by decide⟩
+  obtain ⟨e1, e2, e3, e4⟩ := C09_collide_entries fuel
+  rw [C09_process2_map_entries _ _ _ _ _ (by decide) ?_ (by decide) (by decide) (by decide)]
+  · simp only [C09_collide] at e1 e2 e3 e4 ⊢
+    simp only [evalEntries, e1, e2, e3, e4, e_ok_bind, e_pure_eq]
+    exact congrArg Except.ok (congrArg Val.map (by decide))
+  · intro p hp m hm
+    simp only [C09_collide, List.mem_cons, List.mem_nil_iff, or_false] at hp
+    rcases hp with rfl | rfl | rfl | rfl <;> cases hm
+
+/-- the same instance through the general theorem (non-vacuity of its hypotheses) -/
+example (fuel : Nat) (ret : Val)
+    (hok : process2 (fuel + 3) [] (.map C09_collide) [] (.map C09_collide) = .ok ret) :
+    ∃ m, ret = .map m ∧ Fields.SortedKeys m ∧ fget m "web" = some (.int 2) := by
+  obtain ⟨e1, e2, e3, e4⟩ := C09_collide_entries fuel
+  refine C09_process2_map_collision (fuel + 2) [] (.map C09_collide) [] C09_collide (by decide) ?_
+    (by decide) (by decide) (by decide) "$\"{p}\"" "$\"{q}\"" (.int 1) (.int 2)
+    (by simp [C09_collide]) (by simp [C09_collide]) (by decide) "web" (.int 1) (.int 2) e1 e2 ?_
+    ret hok
+  · intro p hp m hm
+    simp only [C09_collide, List.mem_cons, List.mem_nil_iff, or_false] at hp
+    rcases hp with rfl | rfl | rfl | rfl <;> cases hm
+  · intro p hp n1 n2 q hq
+    simp only [C09_collide, List.mem_cons, List.mem_nil_iff, or_false] at hp
+    rcases hp with rfl | rfl | rfl | rfl
+    · exact absurd rfl n1
+    · exact absurd rfl n2
+    · rw [e3] at hq; cases hq; decide
+    · rw [e4] at hq; cases hq; decide
 
 end Bkl
